@@ -9,3 +9,8 @@ package stdlib_contracts
 //@   modifies nothing
 //@   ensures isNil(b) ==> isNil(result)
 //@   ensures !isNil(b) ==> len(result) == len(b) && fresh(result) && content(result) == content(b)
+
+// parsing a Lemo address string is a function of the string alone; the empty string is not an address
+//@ func StringToAddress   pure trusted
+//@   opt heap-independent
+//@   ensures s == "" ==> result1 != nil
